@@ -176,4 +176,6 @@ class StlAstParserVisitor(LtlAstParserVisitor, StlParserVisitor):
 
     @unit.setter
     def unit(self, unit):
+        if unit not in ('s', 'ms', 'us', 'ns'):
+            raise RTAMTException('Unknown time unit {}: the units are s, ms, us and ns.'.format(unit))
         self.__unit = unit
